@@ -336,6 +336,7 @@ struct pattern {
 	int regexp, casefold;
 	int overlap;                /* regexp whose symbols are not pairwise disjoint */
 	int has_dot, has_neg;
+	int n_escaped_hex, n_escaped_plain;   /* literals written as \xHHHH / as a needlessly escaped character */
 	char text[PAT_MAX * 7 + 8]; /* printable form for details */
 };
 
@@ -420,11 +421,35 @@ static void put(struct pattern *p, unsigned c)
 	if (p->n_ere < PAT_MAX * 2) p->ere_us[p->n_ere++] = (uint16_t)c;
 }
 
+static struct vf_rng *lit_rng;      /* set while a regular expression is generated */
+
 static void put_lit(struct pattern *p, unsigned c)
 {
 	struct symset *s = &syms[n_syms < 31 ? n_syms++ : 31];
 	memset(s, 0, sizeof *s);
 	s->ch[0] = (uint16_t)foldc(c, p->casefold); s->n = 1;
+	if (p->regexp && lit_rng && vf_chance(lit_rng, 1, 5)) {
+		/* The same literal written as an escape (ure.c _ure_compile_symbol): \xHHHH, \uHHHH with one to four hex
+		 * digits (four are written, so that a following hex digit of the pattern is not swallowed), or a
+		 * backslash in front of a character that needs none.  The reference expression gets the plain literal. */
+		static const char hexd[2][17] = { "0123456789abcdef", "0123456789ABCDEF" };
+		int k, up = (int)vf_below(lit_rng, 2);
+		if (p->n_ure < PAT_MAX - 6) {
+			if (vf_chance(lit_rng, 2, 3) || c >= 0x80 || strchr("pPabfnrtvxXuU", (int)c) || is_ere_special(c)) {
+				p->ure[p->n_ure++] = '\\';
+				p->ure[p->n_ure++] = (uint16_t)"xXuU"[vf_below(lit_rng, 4)];
+				for (k = 12; k >= 0; k -= 4) p->ure[p->n_ure++] = (uint16_t)hexd[up][(c >> k) & 15];
+				p->n_escaped_hex++;
+			} else {
+				p->ure[p->n_ure++] = '\\';
+				p->ure[p->n_ure++] = (uint16_t)c;
+				p->n_escaped_plain++;
+			}
+			if (is_ere_special(c) && p->n_ere < PAT_MAX * 2) p->ere_us[p->n_ere++] = '\\';
+			if (p->n_ere < PAT_MAX * 2) p->ere_us[p->n_ere++] = (uint16_t)c;
+			return;
+		}
+	}
 	if (is_ere_special(c)) put(p, '\\');
 	put(p, c);
 }
@@ -514,6 +539,7 @@ static void pat_regex(struct vf_rng *r, struct pattern *p, const uint16_t *sampl
 	memset(p, 0, sizeof *p);
 	p->regexp = 1; p->casefold = casefold;
 	n_syms = 0;
+	lit_rng = r;
 	alts = vf_chance(r, 1, 6) ? 2 : 1;
 	for (a = 0; a < alts; a++) {
 		int nonnull = 0;
@@ -526,6 +552,7 @@ static void pat_regex(struct vf_rng *r, struct pattern *p, const uint16_t *sampl
 		}
 	}
 	p->ure[p->n_ure] = 0;
+	lit_rng = NULL;
 	p->overlap = syms_overlap();
 	pat_printable(p);
 }
@@ -1395,6 +1422,9 @@ static int run_session(struct vf_rng *r, int shape, long idx)
 	vf_count("searches", 1);
 	vf_count(pat.regexp ? "patterns_regexp" : "patterns_literal", 1);
 	if (pat.casefold) vf_count("patterns_casefold", 1);
+	if (pat.n_escaped_hex) vf_count("patterns_with_hex_escaped_literal", 1);
+	if (pat.n_escaped_plain) vf_count("patterns_with_needlessly_escaped_literal", 1);
+	if (pat.casefold && (pat.n_escaped_hex || pat.n_escaped_plain)) vf_count("patterns_casefold_with_escaped_literal", 1);
 	if (pat.regexp && pat.overlap) vf_count("patterns_regexp_overlapping_symbols", 1);
 
 	if (ss.plan == 3) {
